@@ -42,9 +42,9 @@ func (C19) Title() string        { return "call histories on one EncryptedSSHIde
 func (C19) NewPlan() interface{} { return &C19Plan{} }
 func (C19) Runs(tier string) int {
 	if tier == "thorough" {
-		return 100000
+		return 600000
 	}
-	return 5000
+	return 30000
 }
 
 func (C19) Meta() core.Meta {
